@@ -1,7 +1,366 @@
-//! LSP traces (placeholder until the lsp campaign is built).
+//! The simulated editor session: a client actor driving the real language server thread in
+//! strict lockstep over capacity-0 channels.
+
+use std::{
+    sync::Arc,
+    thread::JoinHandle,
+};
+
+use crossbeam_channel::{bounded, Receiver, Sender, TryRecvError, TrySendError};
+use ironplcc::{lsp_project::LspProject, project::FileBackedProject, verif::Hooks};
+use lsp_server::{Connection, Message, Notification, Request, RequestId, Response, ResponseError};
 use serde::{Deserialize, Serialize};
+use serde_json::{json, Value};
+
+use crate::{
+    seam::{seed_thread_randomness, take_last_panic, SimHooks},
+    world::root,
+};
+
+#[derive(Clone, Debug, Serialize, Deserialize, PartialEq)]
+pub enum Event {
+    Open { uri: String, version: i32, text: String },
+    /// full-text sync: 0, 1 or several content changes (the last one wins)
+    Change { uri: String, version: i32, texts: Vec<String> },
+    SemTok { uri: String },
+    UnknownRequest { method: String, uri: String, string_id: bool },
+    UnknownNotification { method: String, uri: String },
+    ClientResponse { id: i32, error: bool },
+    /// the transport delivers the previous notification a second time
+    DupPrev,
+    /// the server process dies and is started again; the editor re-opens what it believes open
+    Restart,
+}
+
+impl Event {
+    pub fn kind(&self) -> &'static str {
+        match self {
+            Event::Open { .. } => "didOpen",
+            Event::Change { texts, .. } => match texts.len() {
+                0 => "didChange.0changes",
+                1 => "didChange.1change",
+                _ => "didChange.2changes",
+            },
+            Event::SemTok { .. } => "semanticTokens",
+            Event::UnknownRequest { .. } => "unknownRequest",
+            Event::UnknownNotification { .. } => "unknownNotification",
+            Event::ClientResponse { .. } => "clientResponse",
+            Event::DupPrev => "duplicateDelivery",
+            Event::Restart => "crashRestart",
+        }
+    }
+}
 
 #[derive(Clone, Debug, Serialize, Deserialize, PartialEq)]
 pub struct LspTrace {
     pub prop: String,
+    /// files present on the simulated disk in ws/ (name, text)
+    pub ws_files: Vec<(String, String)>,
+    /// whether the client announces ws/ as workspace folder in initialize
+    pub use_ws_folder: bool,
+    pub events: Vec<Event>,
+    /// OS randomness of each server incarnation (restart takes the next one, cyclically)
+    pub hash_seeds: Vec<u64>,
+    pub dir_seed: u64,
+    pub mode: String,
+}
+
+/// Expands a symbolic URI ("ws:a.st") to the real one.
+pub fn expand_uri(uri: &str) -> String {
+    match uri.strip_prefix("ws:") {
+        Some(name) => format!("file://{}/ws/{}", root().display(), name),
+        None => uri.to_string(),
+    }
+}
+
+/// The path a file URI denotes on this platform, if any (the client-side model of `to_file_path`).
+pub fn uri_path(uri: &str) -> Option<String> {
+    let full = expand_uri(uri);
+    let url = lsp_types::Url::parse(&full).ok()?;
+    if url.scheme() != "file" {
+        return None;
+    }
+    url.to_file_path().ok().map(|p| p.to_string_lossy().to_string())
+}
+
+fn req_id(index: usize, string_id: bool) -> RequestId {
+    if string_id {
+        RequestId::from(format!("req-{index}"))
+    } else {
+        RequestId::from(1000 + index as i32)
+    }
+}
+
+pub fn event_message(ev: &Event, index: usize) -> Option<Message> {
+    Some(match ev {
+        Event::Open { uri, version, text } => Message::Notification(Notification {
+            method: "textDocument/didOpen".into(),
+            params: json!({"textDocument": {"uri": expand_uri(uri), "languageId": "61131-3-st", "version": version, "text": text}}),
+        }),
+        Event::Change { uri, version, texts } => Message::Notification(Notification {
+            method: "textDocument/didChange".into(),
+            params: json!({"textDocument": {"uri": expand_uri(uri), "version": version}, "contentChanges": texts.iter().map(|t| json!({"text": t})).collect::<Vec<_>>()}),
+        }),
+        Event::SemTok { uri } => Message::Request(Request {
+            id: req_id(index, false),
+            method: "textDocument/semanticTokens/full".into(),
+            params: json!({"textDocument": {"uri": expand_uri(uri)}}),
+        }),
+        Event::UnknownRequest { method, uri, string_id } => {
+            let params = match method.as_str() {
+                "textDocument/hover" | "textDocument/completion" | "textDocument/definition" => {
+                    json!({"textDocument": {"uri": expand_uri(uri)}, "position": {"line": 0, "character": 0}})
+                }
+                "workspace/symbol" => json!({"query": ""}),
+                "textDocument/documentSymbol" | "textDocument/formatting" => json!({"textDocument": {"uri": expand_uri(uri)}, "options": {"tabSize": 2, "insertSpaces": true}}),
+                _ => json!({}),
+            };
+            Message::Request(Request { id: req_id(index, *string_id), method: method.clone(), params })
+        }
+        Event::UnknownNotification { method, uri } => {
+            let params = match method.as_str() {
+                "textDocument/didClose" | "textDocument/didSave" => json!({"textDocument": {"uri": expand_uri(uri)}}),
+                "$/cancelRequest" => json!({"id": 1}),
+                "$/setTrace" => json!({"value": "off"}),
+                "workspace/didChangeConfiguration" => json!({"settings": {}}),
+                "workspace/didChangeWatchedFiles" => json!({"changes": [{"uri": expand_uri(uri), "type": 2}]}),
+                _ => json!({}),
+            };
+            Message::Notification(Notification { method: method.clone(), params })
+        }
+        Event::ClientResponse { id, error } => Message::Response(Response {
+            id: RequestId::from(*id),
+            result: if *error { None } else { Some(Value::Null) },
+            error: if *error { Some(ResponseError { code: -32601, message: "method not found".into(), data: None }) } else { None },
+        }),
+        Event::DupPrev | Event::Restart => return None,
+    })
+}
+
+// ---------------------------------------------------------------------------------------------
+// Recorded history
+
+#[derive(Clone, Debug, Serialize, Deserialize, PartialEq)]
+pub struct Step {
+    /// index into the trace's events; None for protocol frames the executor adds itself
+    pub event: Option<usize>,
+    pub label: String,
+    /// the message as sent (JSON)
+    pub sent: Value,
+    /// everything the server emitted while processing this message
+    pub outputs: Vec<Value>,
+}
+
+#[derive(Clone, Debug, Serialize, Deserialize, PartialEq)]
+pub struct Incarnation {
+    pub hash_seed: u64,
+    pub steps: Vec<Step>,
+    /// Some(panic text or reason) when the server thread ended before `exit`
+    pub died: Option<String>,
+    /// index of the step during whose processing the server died
+    pub died_at_step: Option<usize>,
+    /// return value of start_with_connection (what main would turn into the exit status)
+    pub result: Option<Result<(), String>>,
+    /// true if this incarnation was ended by a simulated crash rather than shutdown/exit
+    pub crashed_by_simulator: bool,
+}
+
+pub fn message_json(m: &Message) -> Value {
+    serde_json::to_value(m).unwrap_or(Value::Null)
+}
+
+pub struct Session {
+    c2s: Option<Sender<Message>>,
+    s2c: Receiver<Message>,
+    handle: Option<JoinHandle<Result<Result<(), String>, String>>>,
+    pub inc: Incarnation,
+    dead: bool,
+}
+
+impl Session {
+    /// Starts a server thread and performs the initialize handshake.
+    pub fn start(hash_seed: u64, hooks: Arc<SimHooks>, ws_folder: Option<String>) -> Session {
+        let (c2s_tx, c2s_rx) = bounded::<Message>(0);
+        let (s2c_tx, s2c_rx) = bounded::<Message>(0);
+        let handle = std::thread::Builder::new()
+            .stack_size(8 << 20)
+            .spawn(move || {
+                seed_thread_randomness(hash_seed);
+                ironplcc::verif::install(Some(hooks as Arc<dyn Hooks>));
+                let r = std::panic::catch_unwind(std::panic::AssertUnwindSafe(|| {
+                    let connection = Connection { sender: s2c_tx, receiver: c2s_rx };
+                    let project = LspProject::new(Box::new(FileBackedProject::new()));
+                    ironplcc::lsp::verif_start_with_connection(connection, project)
+                }));
+                ironplcc::verif::install(None);
+                match r {
+                    Ok(v) => Ok(v),
+                    Err(_) => Err(take_last_panic().unwrap_or_else(|| "panic".into())),
+                }
+            })
+            .expect("spawn server");
+        let mut s = Session {
+            c2s: Some(c2s_tx),
+            s2c: s2c_rx,
+            handle: Some(handle),
+            inc: Incarnation { hash_seed, steps: vec![], died: None, died_at_step: None, result: None, crashed_by_simulator: false },
+            dead: false,
+        };
+        let folders = match ws_folder {
+            Some(uri) => json!([{"uri": uri, "name": "ws"}]),
+            None => Value::Null,
+        };
+        s.deliver(
+            None,
+            "initialize",
+            Message::Request(Request {
+                id: RequestId::from(1),
+                method: "initialize".into(),
+                params: json!({"processId": null, "rootUri": null, "capabilities": {}, "workspaceFolders": folders}),
+            }),
+        );
+        s.deliver(None, "initialized", Message::Notification(Notification { method: "initialized".into(), params: json!({}) }));
+        s
+    }
+
+    fn take_outputs(&mut self) -> bool {
+        // returns false once the channel is disconnected
+        loop {
+            match self.s2c.try_recv() {
+                Ok(m) => {
+                    if let Some(last) = self.inc.steps.last_mut() {
+                        last.outputs.push(message_json(&m));
+                    }
+                }
+                Err(TryRecvError::Empty) => return true,
+                Err(TryRecvError::Disconnected) => return false,
+            }
+        }
+    }
+
+    fn note_death(&mut self) {
+        if self.dead {
+            return;
+        }
+        self.dead = true;
+        // drain what is left, then join
+        while let Ok(m) = self.s2c.try_recv() {
+            if let Some(last) = self.inc.steps.last_mut() {
+                last.outputs.push(message_json(&m));
+            }
+        }
+        if let Some(h) = self.handle.take() {
+            match h.join() {
+                Ok(Ok(r)) => {
+                    self.inc.result = Some(r.clone());
+                    self.inc.died = Some(match r {
+                        Ok(()) => "server returned Ok before exit".to_string(),
+                        Err(e) => format!("server returned Err({e}) before exit"),
+                    });
+                }
+                Ok(Err(p)) => self.inc.died = Some(format!("panic: {p}")),
+                Err(_) => self.inc.died = Some("panic outside catch_unwind".into()),
+            }
+            self.inc.died_at_step = Some(self.inc.steps.len().saturating_sub(1));
+        }
+    }
+
+    /// Delivers one message. It is accepted only when the server is idle in `recv`; until then
+    /// every output on offer is taken and attributed to the previous message.
+    pub fn deliver(&mut self, event: Option<usize>, label: &str, msg: Message) {
+        if self.dead {
+            return;
+        }
+        let sent = message_json(&msg);
+        let mut msg = msg;
+        let mut spins = 0u32;
+        loop {
+            let connected = self.take_outputs();
+            let finished = self.handle.as_ref().map(|h| h.is_finished()).unwrap_or(true);
+            if !connected || finished {
+                self.note_death();
+                return;
+            }
+            match self.c2s.as_ref().unwrap().try_send(msg) {
+                Ok(()) => {
+                    self.inc.steps.push(Step { event, label: label.to_string(), sent, outputs: vec![] });
+                    return;
+                }
+                Err(TrySendError::Full(m)) => {
+                    msg = m;
+                    spins += 1;
+                    if spins < 200 {
+                        std::hint::spin_loop();
+                    } else {
+                        std::thread::yield_now();
+                    }
+                }
+                Err(TrySendError::Disconnected(_)) => {
+                    self.note_death();
+                    return;
+                }
+            }
+        }
+    }
+
+    pub fn is_dead(&self) -> bool {
+        self.dead
+    }
+
+    /// Clean end: shutdown request, exit notification, join.
+    pub fn shutdown_and_exit(mut self) -> Incarnation {
+        if !self.dead {
+            self.deliver(None, "shutdown", Message::Request(Request { id: RequestId::from(2), method: "shutdown".into(), params: Value::Null }));
+        }
+        if !self.dead {
+            // exit is offered at the rendezvous right after the shutdown response is taken: no
+            // real time passes at lsp-server's 30 s recv_timeout
+            self.deliver(None, "exit", Message::Notification(Notification { method: "exit".into(), params: Value::Null }));
+        }
+        if !self.dead {
+            self.finish(false);
+        }
+        self.inc
+    }
+
+    /// Simulated crash: the connection is cut; whatever the server was emitting is still taken.
+    pub fn crash(mut self) -> Incarnation {
+        if !self.dead {
+            self.inc.crashed_by_simulator = true;
+            self.finish(true);
+        }
+        self.inc
+    }
+
+    fn finish(&mut self, crash: bool) {
+        if crash {
+            self.c2s = None;
+        }
+        loop {
+            let connected = self.take_outputs();
+            let finished = self.handle.as_ref().map(|h| h.is_finished()).unwrap_or(true);
+            if finished || !connected {
+                break;
+            }
+            std::thread::yield_now();
+        }
+        // the thread may still be unwinding its stack after dropping the sender
+        while let Ok(m) = self.s2c.recv() {
+            if let Some(last) = self.inc.steps.last_mut() {
+                last.outputs.push(message_json(&m));
+            }
+        }
+        self.c2s = None;
+        if let Some(h) = self.handle.take() {
+            match h.join() {
+                Ok(Ok(r)) => self.inc.result = Some(r),
+                Ok(Err(p)) => {
+                    self.inc.died = Some(format!("panic: {p}"));
+                    self.inc.died_at_step = Some(self.inc.steps.len().saturating_sub(1));
+                }
+                Err(_) => self.inc.died = Some("panic outside catch_unwind".into()),
+            }
+        }
+        self.dead = true;
+    }
 }
